@@ -499,6 +499,13 @@ class RZILTransformer(Transformer):
             return self.add_op(Variable(items[1], t))
         raise NotImplementedError(f"Declaration with items {items} not implemented.")
 
+    def unsupported_syntax(self, items):
+        # Alternatives with a single child are inlined by Lark. These here have an alias,
+        # because the syntax around the child (a call, an array or function declarator) would get lost.
+        raise NotImplementedError(
+            "Calls without arguments, array and function declarators are not supported."
+        )
+
     def init_declarator(self, items):
         self.ext.set_token_meta_data("init_declarator")
 
@@ -506,6 +513,8 @@ class RZILTransformer(Transformer):
             raise NotImplementedError(
                 f"Can not initialize an Init declarator with {len(items)} tokens."
             )
+        if not isinstance(items[0], str):
+            raise NotImplementedError(f"Declarator {items[0]} is not supported.")
         if items[0] in self.il_ops_holder.read_ops:
             # variable was declared before.
             dest = self.il_ops_holder.read_ops[items[0]]
